@@ -39,7 +39,7 @@ ASSUMPTIONS = [
 EXPECTED_PROBES = ['lookup_must_hit', 'lookup_must_miss', 'lookup_indeterminate', 'announce_ok', 'stored_on_all_k_closest',
                    'paging_checked', 'paging_multi_page', 'faulty_node_lookup', 'faulty_value_lookup', 'jump_24h',
                    'two_node_network', 'big_network', 'hostile_reply_seen', 'lookup_with_dead_nodes', 'reannounced',
-                   'must_hit_only_by_reannouncement', 'node_lookup_32', 'hit_after_heal']
+                   'must_hit_only_by_reannouncement', 'node_lookup_32', 'hit_after_heal', 'polling_settle']
 
 RPC_TIMEOUT = 5.0
 EXPIRY = 86400.0
@@ -61,7 +61,13 @@ def gen(run_seed, tier):
         r.shuffle(order)
         for i in order:
             ops.append({'op': 'join', 'node': i, 'wait': r.choice([0.0, 0.0, 0.5, 3.0, 30.0])})
-        ops.append({'op': 'sleep', 'dt': r.choice([620, 900, 1500])})
+        settle = {'op': 'sleep', 'dt': r.choice([620, 900, 1500])}
+        if r.random() < 0.3:
+            # a busy network: from the moment they join, nodes keep looking things up (well inside the 300 s
+            # "maybe ping" delay), as a daemon with active downloads does
+            settle['dt'] = r.choice([1500, 2400, 3600])
+            settle['poll'] = {'every': r.choice([60, 120, 240]), 'blob': r.getrandbits(384)}
+        ops.append(settle)
         n_ann = 1 if n < 4 else r.choice([1, 1, 2, 3])
         announcers = r.sample(range(n), n_ann)
         blob = r.getrandbits(384)
@@ -100,8 +106,9 @@ def gen(run_seed, tier):
             ops.append({'op': 'lookup', 'node': i, 'blob': blob, 'wait': r.choice([0.0, 0.0, 1.0])})
         sc['ops'] = ops
     elif fam == 'heal':
-        # bounded liveness once faults stop: loss and dead nodes for a while, then a loss-free honest network
-        # again (the premise of the hit guarantee); after a settle period announcements must be findable
+        # recovery once faults stop: loss and dead nodes for a while, then a loss-free honest network again.
+        # Termination and validity of every lookup are judged as everywhere; whether announcements are findable
+        # again is only observed (probes hit_after_heal / miss_after_heal)
         n = r.choice([3, 5, 8, 10, 12, 16])
         sc['n'] = n
         sc['net'] = {'latency': [0.001, r.choice([0.02, 0.3])], 'dup': r.choice([0.0, 0.1]), 'loss': 0.0}
@@ -301,6 +308,22 @@ def run_dht(scenario, run, monitor=False, corrupt_factory=None, max_steps=12_000
                 # finishes shows as a node issuing find requests without end (a settled node sends a few hundred)
                 base = dict(world.requests_by_node)
                 left = float(op['dt'])
+                pollers = []
+                if op.get('poll'):
+                    pkey = (op['poll']['blob'] % (1 << 384)).to_bytes(48, 'big')
+
+                    async def poller(node, offset):
+                        await asyncio.sleep(offset)
+                        while True:
+                            try:
+                                await value_lookup(node, pkey)
+                            except Exception:  # noqa  (a poll is load, not a judged lookup)
+                                pass
+                            await asyncio.sleep(op['poll']['every'])
+                    pr = run.rng('poll', n_op)
+                    for j in sorted(started):
+                        pollers.append(loop.create_task(poller(world.nodes[j], pr.random() * op['poll']['every'])))
+                    run.probes['polling_settle'] += 1
                 while left > 0 and not run.violations:
                     await asyncio.sleep(min(2.0, left))
                     left -= 2.0
@@ -309,11 +332,16 @@ def run_dht(scenario, run, monitor=False, corrupt_factory=None, max_steps=12_000
                                       f'in a network of {n}: lookups spawn probes without bound', what='storm')
                         break
                     for addr, cnt in world.requests_by_node.items():
-                        if cnt - base.get(addr, 0) > 1500 + 30 * n + 100 * op['dt'] / 3600.0:
+                        if cnt - base.get(addr, 0) > 1500 + 30 * n + 100 * op['dt'] / 3600.0 + \
+                                (40 * op['dt'] / op['poll']['every'] if op.get('poll') else 0):
                             run.violation('C12.lookup_runaway', f'node {world.index_of.get(addr)} issued {cnt - base.get(addr, 0)} find '
                                           f'requests within {op["dt"] - max(left, 0):.0f}s of background operation in a network of {n}: '
                                           f'an iterative lookup that does not terminate', what='background')
                             break
+                for t in pollers:
+                    t.cancel()
+                if pollers:
+                    await asyncio.sleep(6.0)
                 run.ev('sleep', op['dt'], world.net.sent)
             elif kind == 'jump':
                 # clock jump at (near) quiescence: let in-flight datagrams land first
@@ -359,7 +387,7 @@ def run_dht(scenario, run, monitor=False, corrupt_factory=None, max_steps=12_000
                     continue
                 rec = {'node': i, 'start': t0, 'end': loop.time(), 'stored_to': stored_to}
                 announces.setdefault(op['blob'], []).append(rec)
-                if not stored_to and len(started) > 1:
+                if not stored_to and len(started) > 1 and fam != 'heal':
                     run.violation('C12.announce_stored_nowhere', f'announce_blob by node {i} stored on no node '
                                   f'in a loss-free honest network of {len(started)}')
                     return
@@ -491,9 +519,14 @@ def run_dht(scenario, run, monitor=False, corrupt_factory=None, max_steps=12_000
                         run.probes['reannounced'] += 1
                     if t_end < latest['start'] + EXPIRY - 60:
                         # younger than 24 h with respect to the latest announcement of that node
-                        run.probes['lookup_must_hit'] += 1
                         if fam == 'heal':
-                            run.probes['hit_after_heal'] += 1
+                            # recovery after an outage is NOT promised by the statement (its premise is a network that
+                            # was loss-free all along): observed and counted, never a violation.  Seen on the unchanged
+                            # tree: 3 nodes, 50 % loss with one node dead for 1500 s - afterwards a node that still knows
+                            # one live peer never re-bootstraps, so the bootstrap node can stay unknown to it
+                            run.probes['hit_after_heal' if me in got else 'miss_after_heal'] += 1
+                            continue
+                        run.probes['lookup_must_hit'] += 1
                         if len(recs) > 1 and t0 > recs[0]['end'] + EXPIRY:
                             run.probes['must_hit_only_by_reannouncement'] += 1
                         if me not in got:
